@@ -204,15 +204,15 @@ CHECKS = {
         note=LEVEL_NOTE_COMMON + " scipy's coo->csr conversion is modelled (summing duplicates) and validated per run, not verified; sklearn parameter plumbing is covered by the argument spy only for k and epsilon.",
     ),
     "C05": dict(
-        technique="Coq proof: generic row-ownership theorem (every interleaving of threads that each own their rows equals the sequential run), instantiated to apply_graph_updates_low_memory against the sequential model that the correspondence check ties to the compiled kernel; row independence of diversification with private generator states; independence of a query call from earlier calls + repeated seeded histories compared bit-for-bit",
-        text=("Theorems C05_row_ownership_schedule_independent, C05_apply_updates_schedule_independent, C05_diversify_rowwise, "
+        technique="Coq proof: generic row-ownership theorem (every interleaving of threads that each own their rows equals the sequential run), instantiated to apply_graph_updates_low_memory and to new_build_candidates against the sequential models that the correspondence check ties to the compiled kernels; row independence of diversification with private generator states; independence of a query call from earlier calls + repeated seeded histories compared bit-for-bit",
+        text=("Theorems C05_row_ownership_schedule_independent, C05_apply_updates_schedule_independent, C05_build_candidates_schedule_independent, C05_diversify_rowwise, "
               "C05_query_independent_of_history (coq/props/C05.v). Every run: compiled apply_graph_updates_low_memory / high_memory and "
               "new_build_candidates against the extracted sequential models under the whole thread pool; the low-memory kernel repeated on "
               "identical input; histories build -> prepare -> queries -> update -> query repeated under a fixed seed over data kinds x metrics x "
               "n_jobs 2..16 x low_memory x diversify_prob x tree_init, comparing neighbor graphs, search graph, vertex order, rng_state after "
               "prepare, search_rng_state and all query answers between repetitions; repeated and interleaved queries."),
         design_ref="6.5",
-        note=LEVEL_NOTE_COMMON + " The ownership theorem is instantiated for the low-memory update kernel only (new_build_candidates and the high-memory variant: correspondence + repetition); the schedule quantifier relies on the stated interleaving model of prange; independence is between query() calls, not between rows of one batch.",
+        note=LEVEL_NOTE_COMMON + " The ownership theorem is instantiated for the two prange kernels that write shared rows (low-memory update application, candidate building); update generation writes private per-iteration lists (correspondence + repetition); the schedule quantifier relies on the stated interleaving model of prange; independence is between query() calls, not between rows of one batch.",
     ),
     "C03": dict(
         technique="Coq proof of the exactness clause (one leaf listing every point => after init_rp_tree every row is exact up to distance ties, all sizes, all symmetric finite distance tables) + exact comparison of real single-leaf builds with brute force; the recall floors are statistical and are MEASURED (tie-aware recall against float64 brute force over seeded data families x metrics x build modes), not proved",
